@@ -576,6 +576,14 @@ func c19Sequence(c *Ctx, i int, r *Rng, add func(line, impl, cas string)) {
 	if r.Chance(20) {
 		relock = Pick(r, pats)
 	}
+	exactFam := ""
+	if relock == "" && len(preTracked) == 0 && r.Chance(12) {
+		exactFam = Pick(r, []string{"other.bin", "data.bin"})
+		if n < 3 {
+			n = 3
+		}
+		c.R.Count("seq.rooted-and-unrooted-lines")
+	}
 	for k := 0; k < n; k++ {
 		p := Pick(r, pats)
 		var args []string
@@ -583,6 +591,11 @@ func c19Sequence(c *Ctx, i int, r *Rng, add func(line, impl, cas string)) {
 		if relock != "" && k < 2 {
 			p = relock
 			op = []int{1, 5}[k]
+		}
+		if exactFam != "" && k < 3 {
+			// directed (D77): `/x` lockable, then `x` beside it, then the lock flag of `/x` is taken away again
+			p = []string{"/" + exactFam, exactFam, "/" + exactFam}[k]
+			op = []int{1, 5, 2}[k]
 		}
 		if len(preTracked) > 0 && k == 0 {
 			p, op = "*.bin", Pick(r, []int{1, 1, 2, 5})
